@@ -54,6 +54,8 @@ WithinPolicy(st, v, isClient) ==
   /\ (st.reqEms /\ v.ver < 4 => v.ems)
   \* the client checks the size of the server's key; key sizes in bits, 0 = not applicable (anonymous / EC)
   /\ (isClient /\ v.keyBits > 0 => (v.keyBits >= st.minKey /\ v.keyBits <= st.maxKey))
+  \* the server checks the size of the client's key when it authenticated with a certificate
+  /\ (~isClient /\ v.cltKeyBits > 0 => (v.cltKeyBits >= st.minKey /\ v.cltKeyBits <= st.maxKey))
   /\ (v.alpn # "" => \E i \in 1..Len(st.alpn) : st.alpn[i] = v.alpn)
 
 \* record size limits as RFC 8449 defines them from the two settings
@@ -71,7 +73,10 @@ Outcome(cs, ss, c, s) ==
 \* ---- compatible settings must connect (C19b): a shared version and, for the highest one, a
 \* suite both allow that the server's credentials can serve, a group and EMS compatibility
 CredServes(certKey, t, ver) ==
-  IF ver = 4 THEN certKey \in {"rsa", "ecdsa"}
+  IF ver = 4 THEN certKey \in {"rsa", "ecdsa", "rsapss"}
+  ELSE IF certKey = "rsapss"
+       \* an rsa-pss certificate signs (RSA-PSS, TLS 1.2 only) but cannot decrypt a ClientKeyExchange
+       THEN ver = 3 /\ CertKey(t) = "rsa" /\ Kex(t) # "rsa"
   ELSE CASE CertKey(t) = "none" -> TRUE [] CertKey(t) = "any" -> FALSE [] OTHER -> CertKey(t) = certKey
 MustConnect(cs, ss, certKey, certBits, certCurve, candidates) ==
   /\ cs.vers \cap ss.vers # {}
@@ -84,10 +89,15 @@ MustConnect(cs, ss, certKey, certBits, certCurve, candidates) ==
               /\ (certBits > 0 => (certBits >= cs.minKey /\ certBits <= cs.maxKey))
               \* an ECDSA certificate must be on a curve the client enables
               /\ (certKey = "ecdsa" => certCurve \in cs.curves)
-              /\ (v = 4 \/ Kex(t) \in {"ecdhe_rsa", "ecdhe_ecdsa"} => (cs.curves \cap ss.curves) # {})
+              \* TLS <= 1.2 ECDHE needs a common curve (for TLS 1.3 any common group will do: next conjunct)
+              /\ (v < 4 /\ Kex(t) \in {"ecdhe_rsa", "ecdhe_ecdsa"} => (cs.curves \cap ss.curves) # {})
        /\ (v = 4 => ((cs.curves \cup cs.dhGroups) \cap (ss.curves \cup ss.dhGroups)) # {})
        /\ (v < 4 /\ v > 0 => ~(cs.reqEms /\ ~ss.ems) /\ ~(ss.reqEms /\ ~cs.ems))
        /\ (v = 0 => ~cs.reqEms /\ ~ss.reqEms)                          \* SSLv3 has no extensions
        \* ALPN: both configured and disjoint lists end in no_application_protocol
        /\ (Len(cs.alpn) > 0 /\ Len(ss.alpn) > 0 => \E i \in 1..Len(cs.alpn), j \in 1..Len(ss.alpn) : cs.alpn[i] = ss.alpn[j])
+\* with client authentication: the client's certificate must also fit the server's key-size policy
+MustConnectCA(cs, ss, certKey, certBits, certCurve, candidates, cltBits) ==
+  /\ MustConnect(cs, ss, certKey, certBits, certCurve, candidates)
+  /\ (cltBits > 0 => (cltBits >= ss.minKey /\ cltBits <= ss.maxKey))
 =============================================================================
